@@ -254,7 +254,7 @@ def judge(module, trace, name, parallel=None, extra_env=None, parts=None):
 # ---------------------------------------------------------------------------------------------
 # event-level conformance: recorded runs validated against the implementation-shaped model by TLC
 
-CONF_CMP = ("out", "h_start", "h_end", "ctl", "ctl_done", "conn_done")
+CONF_CMP = ("out", "h_start", "h_end", "ctl", "ctl_done", "conn_done", "h_drop")
 
 
 def events_by_cmd(tp):
@@ -302,8 +302,12 @@ def conform(spec, cfg_text, runs, tp, name, workers=1):
                 es = []
                 for c in range(bounds[i], bounds[i + 1]):
                     es += [proj(e) for e in evs.get(r["run"], {}).get(c, []) if e["e"] in cmpk and not spec.get("drop", lambda e, r: False)(e, r)]
-                # wire output is observed at quiescence: its position among the other events is an artefact
-                per.append([e for e in es if e["e"] != "out"] + [e for e in es if e["e"] == "out"])
+                # wire output is observed at quiescence, the end of the connection task and the dropping of cancelled
+                # handlers happen in an order that depends on which task is dropped first: listed after the rest
+                late = ("out", "conn_done", "h_drop")
+                per.append([e for e in es if e["e"] not in late] + [e for e in es if e["e"] == "conn_done"]
+                           + sorted([e for e in es if e["e"] == "h_drop"], key=lambda e: e["s"])
+                           + [e for e in es if e["e"] == "out"])
             f.write(json.dumps(dict(run=r["run"], toks=[spec["tok2rec"](t) for t in toks], evs=per), separators=(",", ":")) + "\n")
             by_run[r["run"]] = r
             n += 1
